@@ -119,6 +119,22 @@ func (t *tflush) handle(cs *connState) message {
 	return &rflush{}
 }
 
+// maxReplyPayload returns the largest data payload an Rread or Rreaddir can
+// carry so that the frame (size[4] type[1] tag[2] count[4] data) still fits in
+// the negotiated message size.
+func (cs *connState) maxReplyPayload() uint32 {
+	const overhead = headerLength + 4
+	msize := atomic.LoadUint32(&cs.messageSize)
+	if msize == 0 {
+		// Default or not yet negotiated.
+		msize = maximumLength
+	}
+	if msize < overhead {
+		return 0
+	}
+	return msize - overhead
+}
+
 // checkSafeName validates the name and returns nil or returns an error.
 func checkSafeName(name string) error {
 	if name != "" && !strings.Contains(name, "/") && name != "." && name != ".." {
@@ -728,6 +744,13 @@ func (t *tread) handle(cs *connState) message {
 		return newErr(linux.ENOBUFS)
 	}
 
+	// The whole Rread must fit in the negotiated message size: return
+	// fewer bytes rather than exceeding it.
+	count := t.Count
+	if max := cs.maxReplyPayload(); count > max {
+		count = max
+	}
+
 	var n int
 	data := cs.readBufPool.Get().(*[]byte)
 	// Retain a reference to the full length of the buffer.
@@ -745,7 +768,7 @@ func (t *tread) handle(cs *connState) message {
 				return linux.EPERM
 			}
 
-			n, err = ref.file.ReadAt(dataBuf[:t.Count], int64(t.Offset))
+			n, err = ref.file.ReadAt(dataBuf[:count], int64(t.Offset))
 			return err
 
 		case xattrWalk:
@@ -768,7 +791,7 @@ func (t *tread) handle(cs *connState) message {
 				return linux.EINVAL
 			}
 
-			n = copy(dataBuf[:t.Count], ref.pendingXattr.buf[t.Offset:])
+			n = copy(dataBuf[:count], ref.pendingXattr.buf[t.Offset:])
 			return nil
 		default:
 			return linux.EINVAL
@@ -1091,7 +1114,13 @@ func (t *treaddir) handle(cs *connState) message {
 		return newErr(err)
 	}
 
-	return &rreaddir{Count: t.Count, Entries: entries}
+	// The whole Rreaddir must fit in the negotiated message size: return
+	// fewer entries rather than exceeding it.
+	count := t.Count
+	if max := cs.maxReplyPayload(); count > max {
+		count = max
+	}
+	return &rreaddir{Count: count, Entries: entries}
 }
 
 // handle implements handler.handle.
